@@ -33,6 +33,7 @@ FUNCS = [
     ("oil.b_o_Standing", OIL + "b_o_Standing", lambda P: [T, P, api, gg, R]),
     ("oil.solution_gor_Standing", OIL + "solution_gor_Standing", lambda P: [T, P, api, gg, R]),
     ("oil.compressibility_Spivey", OIL + "oil_compressibility_undersat_Spivey", lambda P: [T, P, api, gg, R]),
+    ("oil.density_Standing", OIL + "density_Standing", lambda P: [T, P, api, gg, R]),
     ("water.b_water_McCain", WATER + "b_water_McCain", lambda P: [T, P]),
     ("water.b_water_McCain_dp", WATER + "b_water_McCain_dp", lambda P: [T, P]),
     ("water.compressibility", WATER + "compressibility_water_McCain", lambda P: [T, P, S]),
@@ -98,6 +99,7 @@ def _one(f, q, argorder, dt, base, order, prm):
 
 ARGORDER = {
     OIL + "b_o_Standing": ["T", "P", "api", "gg", "R"], OIL + "solution_gor_Standing": ["T", "P", "api", "gg", "R"], OIL + "oil_compressibility_undersat_Spivey": ["T", "P", "api", "gg", "R"],
+    OIL + "density_Standing": ["T", "P", "api", "gg", "R"],
     WATER + "b_water_McCain": ["T", "P"], WATER + "b_water_McCain_dp": ["T", "P"], WATER + "compressibility_water_McCain": ["T", "P", "S"], WATER + "density_water_McCain": ["T", "P", "S"], WATER + "viscosity_water_McCain": ["T", "P", "S"],
 }
 
